@@ -1,5 +1,5 @@
 (* C20 — lemmas about the generator model of AmalgamDefs (for every tree). *)
-From Coq Require Import List NArith Bool Lia.
+From Coq Require Import List NArith Bool Lia Arith.
 Import ListNotations.
 Require Import QtlVerif.AmalgamDefs.
 Local Open Scope N_scope.
@@ -22,6 +22,36 @@ Proof.
 Qed.
 Lemma mem_path_false p l : mem_path p l = false -> ~ In p l.
 Proof. intros H Hin. apply mem_path_In in Hin. congruence. Qed.
+Lemma mem_path_dec (p : path) (l : list path) : {In p l} + {~ In p l}.
+Proof. destruct (mem_path p l) eqn:E; [left; apply mem_path_In; exact E|right; apply mem_path_false; exact E]. Qed.
+
+(* ------------------------------------------------------------------------------------------------
+   0. one generic invariant lemma for the scan: a predicate on the generator state that survives
+      logging a directive and survives the expansion of a newly included file survives the scan *)
+Section ScanInv.
+  Variable t : tree.
+  Variable rec_process : path -> gst -> str -> str * gst.
+  Variable P : gst -> Prop.
+  (* a directive that is logged but not expanded: unresolved, or its target is already included *)
+  Hypothesis Hmet : forall g inc, P g ->
+    match resolve t (include_dir g) inc with Some q => mem_path q (included g) = true | None => True end ->
+    P (with_met g (include_dir g, inc, resolve t (include_dir g) inc)).
+  Hypothesis Hrec : forall g inc q out, P g ->
+    resolve t (include_dir g) inc = Some q -> mem_path q (included g) = false ->
+    P (snd (rec_process q (add_inc (with_met g (include_dir g, inc, Some q)) q) out)).
+  Lemma scan_inv : forall s skip keep g out, P g -> P (snd (scan t rec_process s skip keep g out)).
+  Proof.
+    induction s as [|c r IH]; intros skip keep g out H; cbn [scan]; [exact H|].
+    destruct skip as [|k]; [|apply IH; exact H].
+    destruct (match_include (c :: r)) as [[inc mlen]|]; [|apply IH; exact H].
+    pose proof (Hmet g inc H) as HM.
+    destruct (resolve t (include_dir g) inc) as [q|] eqn:Hq; [|apply IH, HM; exact I].
+    destruct (mem_path q (included g)) eqn:Hm; [apply IH, HM; reflexivity|].
+    pose proof (Hrec g inc q (rev_append (header_of q) out) H Hq Hm) as E.
+    destruct (rec_process q (add_inc (with_met g (include_dir g, inc, Some q)) q) (rev_append (header_of q) out)) as [out2 g2].
+    apply IH. exact E.
+  Qed.
+End ScanInv.
 
 (* ------------------------------------------------------------------------------------------------
    1. the include set never shrinks and never holds a path twice *)
@@ -30,176 +60,372 @@ Definition Mono (g g' : gst) : Prop :=
 Lemma Mono_refl g : Mono g g. Proof. split; [apply incl_refl|auto]. Qed.
 Lemma Mono_trans a b c : Mono a b -> Mono b c -> Mono a c.
 Proof. intros [I1 N1] [I2 N2]. split; [eapply incl_tran; eassumption|auto]. Qed.
+Lemma Mono_with_met g e : Mono g (with_met g e). Proof. split; cbn; [apply incl_refl|auto]. Qed.
+Lemma Mono_enter g p : Mono g (enter g p). Proof. split; cbn; [apply incl_refl|auto]. Qed.
+Lemma Mono_starve g : Mono g (starve g). Proof. split; cbn; [apply incl_refl|auto]. Qed.
+Lemma Mono_add_inc g q : mem_path q (included g) = false -> Mono g (add_inc g q).
+Proof. intros Hm. split; cbn; [intros x Hx; right; exact Hx|intros Hn; constructor; [apply mem_path_false; exact Hm|exact Hn]]. Qed.
 
-Section ScanLemmas.
-  Variable t : tree.
-  Variable rec_process : path -> gst -> str -> str * gst.
-
-  Hypothesis rec_mono : forall q g out, Mono g (snd (rec_process q g out)).
-  Lemma scan_mono : forall s skip keep g out, Mono g (snd (scan t rec_process s skip keep g out)).
-  Proof.
-    induction s as [|c r IH]; intros skip keep g out; cbn [scan]; [apply Mono_refl|].
-    destruct skip as [|k]; [|apply IH].
-    destruct (match_include (c :: r)) as [[inc mlen]|]; [|apply IH].
-    destruct (resolve t (include_dir g) inc) as [q|]; [|apply IH].
-    destruct (mem_path q (included g)) eqn:Hm; [apply IH|].
-    set (g1 := {| include_dir := include_dir g; included := q :: included g; emitted := emitted g; starved := starved g |}).
-    destruct (rec_process q g1 (rev_append (header_of q) out)) as [out2 g2] eqn:Hr.
-    assert (M1 : Mono g g1).
-    { split; cbn; [intros x Hx; right; exact Hx|intros Hn; constructor; [apply mem_path_false; exact Hm|exact Hn]]. }
-    assert (M2 : Mono g1 g2) by (specialize (rec_mono q g1 (rev_append (header_of q) out)); rewrite Hr in rec_mono; exact rec_mono).
-    eapply Mono_trans; [exact M1|]. eapply Mono_trans; [exact M2|apply IH].
-  Qed.
-
-  (* a directive the scan stands on and can resolve ends up in the include set *)
-  Lemma scan_closure_step : forall c r keep g out inc mlen q,
-    match_include (c :: r) = Some (inc, mlen) -> resolve t (include_dir g) inc = Some q ->
-    In q (included (snd (scan t rec_process (c :: r) O keep g out))).
-  Proof.
-    intros c r keep g out inc mlen q Hm Hq. cbn [scan]. rewrite Hm, Hq.
-    destruct (mem_path q (included g)) eqn:Hin.
-    - apply (proj1 (scan_mono r (pred mlen) false g out)). apply mem_path_In. exact Hin.
-    - set (g1 := {| include_dir := include_dir g; included := q :: included g; emitted := emitted g; starved := starved g |}).
-      destruct (rec_process q g1 (rev_append (header_of q) out)) as [out2 g2] eqn:Hr.
-      apply (proj1 (scan_mono r (pred mlen) false g2 (rev_append (footer_of q) out2))).
-      pose proof (rec_mono q g1 (rev_append (header_of q) out)) as M. rewrite Hr in M. apply (proj1 M). left. reflexivity.
-  Qed.
-End ScanLemmas.
-
+Lemma scan_mono t rec_process :
+  (forall q g out, Mono g (snd (rec_process q g out))) ->
+  forall s skip keep g out, Mono g (snd (scan t rec_process s skip keep g out)).
+Proof.
+  intros Hr s skip keep g out.
+  apply (scan_inv t rec_process (Mono g)); [| |apply Mono_refl].
+  - intros g1 inc H _. eapply Mono_trans; [exact H|apply Mono_with_met].
+  - intros g1 inc q o H Hq Hm. eapply Mono_trans; [exact H|].
+    eapply Mono_trans; [apply Mono_with_met|]. eapply Mono_trans; [apply Mono_add_inc; exact Hm|apply Hr].
+Qed.
 Lemma process_mono t : forall fuel p g out, Mono g (snd (process fuel t p g out)).
 Proof.
-  induction fuel as [|f IH]; intros p g out; cbn [process]; [split; cbn; [apply incl_refl|auto]|].
+  induction fuel as [|f IH]; intros p g out; cbn [process]; [apply Mono_starve|].
   destruct (lookup t p) as [content|]; [|apply Mono_refl].
-  eapply Mono_trans; [|apply scan_mono; exact IH]. split; cbn; [apply incl_refl|auto].
+  eapply Mono_trans; [apply (Mono_enter g p)|apply scan_mono; exact IH].
 Qed.
 Lemma main_loop_mono t : forall srcs first g out, Mono g (snd (main_loop t srcs first g out)).
 Proof.
   induction srcs as [|p r IH]; intros first g out; cbn [main_loop]; [apply Mono_refl|].
-  match goal with |- context [process ?f t p g ?o] => destruct (process f t p g o) as [out2 g2] eqn:Hp end.
-  eapply Mono_trans; [|apply IH].
-  match type of Hp with process ?f t p g ?o = _ => pose proof (process_mono t f p g o) as M end. rewrite Hp in M. exact M.
+  match goal with |- context [process ?f t p g ?o] => pose proof (process_mono t f p g o) as M; destruct (process f t p g o) as [out2 g2] end.
+  eapply Mono_trans; [exact M|apply IH].
+Qed.
+
+(* a directive the scan stands on and can resolve ends up in the include set *)
+Lemma scan_closure_step t rec_process :
+  (forall q g out, Mono g (snd (rec_process q g out))) ->
+  forall c r keep g out inc mlen q,
+  match_include (c :: r) = Some (inc, mlen) -> resolve t (include_dir g) inc = Some q ->
+  In q (included (snd (scan t rec_process (c :: r) O keep g out))).
+Proof.
+  intros Hr c r keep g out inc mlen q Hm Hq. cbn [scan]. rewrite Hm, Hq.
+  destruct (mem_path q (included g)) eqn:Hin.
+  - apply (proj1 (scan_mono t rec_process Hr r (pred mlen) false _ out)). cbn. apply mem_path_In. exact Hin.
+  - pose proof (Hr q (add_inc (with_met g (include_dir g, inc, Some q)) q) (rev_append (header_of q) out)) as M.
+    destruct (rec_process q (add_inc (with_met g (include_dir g, inc, Some q)) q) (rev_append (header_of q) out)) as [out2 g2].
+    apply (proj1 (scan_mono t rec_process Hr r (pred mlen) false g2 (rev_append (footer_of q) out2))).
+    apply (proj1 M). left. reflexivity.
 Qed.
 
 Lemma rev_append_NoDup {A} (l : list A) : NoDup l -> NoDup (rev_append l []).
 Proof. intros H. rewrite rev_append_rev, app_nil_r. apply NoDup_rev. exact H. Qed.
+Lemma In_rev_append_nil {A} (x : A) l : In x (rev_append l []) <-> In x l.
+Proof. rewrite rev_append_rev, app_nil_r. symmetry. apply in_rev. Qed.
 
-Theorem included_once t : NoDup (included_files t).
+Theorem included_once_set t : NoDup (included_files t).
 Proof.
   unfold included_files, expand. apply rev_append_NoDup.
   apply (proj2 (main_loop_mono t (sources t) true init_state [])). constructor.
 Qed.
 
 (* ------------------------------------------------------------------------------------------------
-   2. what is emitted is a root source or an included file; an included file IS emitted *)
+   2. what is emitted is a root source or an included file *)
 Definition EmSub (roots : list path) (g : gst) : Prop :=
   forall p, In p (emitted g) -> In p roots \/ In p (included g).
-(* J: unless the fuel ran out, every included path that is a file has been scanned *)
-Definition J (t : tree) (g : gst) : Prop :=
-  starved g = false -> forall q, In q (included g) -> is_file t q = true -> In q (emitted g).
-
-Section ScanLemmas2.
-  Variable t : tree.
-  Variable roots : list path.
-  Variable rec_process : path -> gst -> str -> str * gst.
-  Hypothesis rec_em : forall q g out, In q (included g) -> EmSub roots g -> EmSub roots (snd (rec_process q g out)).
-  Hypothesis rec_J : forall q g0 g1 out,
-    included g1 = q :: included g0 -> emitted g1 = emitted g0 -> starved g1 = starved g0 ->
-    J t g0 -> J t (snd (rec_process q g1 out)).
-
-  Lemma scan_em : forall s skip keep g out, EmSub roots g -> EmSub roots (snd (scan t rec_process s skip keep g out)).
-  Proof.
-    induction s as [|c r IH]; intros skip keep g out H; cbn [scan]; [exact H|].
-    destruct skip as [|k]; [|apply IH; exact H].
-    destruct (match_include (c :: r)) as [[inc mlen]|]; [|apply IH; exact H].
-    destruct (resolve t (include_dir g) inc) as [q|]; [|apply IH; exact H].
-    destruct (mem_path q (included g)) eqn:Hm; [apply IH; exact H|].
-    set (g1 := {| include_dir := include_dir g; included := q :: included g; emitted := emitted g; starved := starved g |}).
-    destruct (rec_process q g1 (rev_append (header_of q) out)) as [out2 g2] eqn:Hr.
-    apply IH. pose proof (rec_em q g1 (rev_append (header_of q) out)) as E. rewrite Hr in E. apply E.
-    - left. reflexivity.
-    - intros p Hp. cbn in Hp. destruct (H p Hp) as [A|A]; [left; exact A|right; right; exact A].
-  Qed.
-  Lemma scan_J : forall s skip keep g out, J t g -> J t (snd (scan t rec_process s skip keep g out)).
-  Proof.
-    induction s as [|c r IH]; intros skip keep g out H; cbn [scan]; [exact H|].
-    destruct skip as [|k]; [|apply IH; exact H].
-    destruct (match_include (c :: r)) as [[inc mlen]|]; [|apply IH; exact H].
-    destruct (resolve t (include_dir g) inc) as [q|]; [|apply IH; exact H].
-    destruct (mem_path q (included g)) eqn:Hm; [apply IH; exact H|].
-    set (g1 := {| include_dir := include_dir g; included := q :: included g; emitted := emitted g; starved := starved g |}).
-    destruct (rec_process q g1 (rev_append (header_of q) out)) as [out2 g2] eqn:Hr.
-    apply IH. pose proof (rec_J q g g1 (rev_append (header_of q) out) eq_refl eq_refl eq_refl H) as E. rewrite Hr in E. exact E.
-  Qed.
-End ScanLemmas2.
-
 Lemma process_em t roots : forall fuel p g out,
   (In p roots \/ In p (included g)) -> EmSub roots g -> EmSub roots (snd (process fuel t p g out)).
 Proof.
   induction fuel as [|f IH]; intros p g out Hp H; cbn [process]; [exact H|].
   destruct (lookup t p) as [content|]; [|exact H].
-  apply scan_em.
-  - intros q g' out' Hq H'. apply IH; [right; exact Hq|exact H'].
-  - intros x Hx. cbn in Hx. cbn [included]. destruct Hx as [<-|Hx]; [exact Hp|apply H; exact Hx].
+  apply (scan_inv t (process f t) (EmSub roots)).
+  - intros g1 inc H1 _. exact H1.
+  - intros g1 inc q o H1 _ _. apply IH; [right; left; reflexivity|].
+    intros x Hx. cbn in Hx. destruct (H1 x Hx) as [A|A]; [left; exact A|right; right; exact A].
+  - intros x Hx. cbn in Hx. cbn [included enter]. destruct Hx as [<-|Hx]; [exact Hp|apply H; exact Hx].
 Qed.
-Lemma process_J t : forall fuel q g0 g1 out,
-  included g1 = q :: included g0 -> emitted g1 = emitted g0 -> starved g1 = starved g0 ->
-  J t g0 -> J t (snd (process fuel t q g1 out)).
-Proof.
-  induction fuel as [|f IH]; intros q g0 g1 out Hi He Hs H; cbn [process].
-  - intros Hst. cbn in Hst. discriminate.
-  - destruct (lookup t q) as [content|] eqn:Hl.
-    + apply scan_J; [exact IH|].
-      intros Hst x Hx Hf. cbn in *. rewrite Hi in Hx. destruct Hx as [<-|Hx]; [left; reflexivity|].
-      right. rewrite He. apply H; [rewrite <- Hs; exact Hst|exact Hx|exact Hf].
-    + cbn [snd]. intros Hst x Hx Hf. rewrite Hi in Hx. destruct Hx as [<-|Hx].
-      * unfold is_file in Hf. rewrite Hl in Hf. discriminate.
-      * rewrite He. apply H; [rewrite <- Hs; exact Hst|exact Hx|exact Hf].
-Qed.
-(* a root source is scanned without being put into the include set: J is kept *)
-Lemma process_root_J t : forall fuel p g out, J t g -> J t (snd (process fuel t p g out)).
-Proof.
-  intros [|f] p g out H; cbn [process]; [intros Hst; cbn in Hst; discriminate|].
-  destruct (lookup t p) as [content|]; [|exact H].
-  apply scan_J; [apply process_J|].
-  intros Hst x Hx Hf. cbn in *. right. apply H; assumption.
-Qed.
-
 Lemma main_loop_em t roots : forall srcs first g out,
   incl srcs roots -> EmSub roots g -> EmSub roots (snd (main_loop t srcs first g out)).
 Proof.
   induction srcs as [|p r IH]; intros first g out Hi H; cbn [main_loop]; [exact H|].
-  match goal with |- context [process ?f t p g ?o] => destruct (process f t p g o) as [out2 g2] eqn:Hp end.
+  match goal with |- context [process ?f t p g ?o] => pose proof (process_em t roots f p g o) as M; destruct (process f t p g o) as [out2 g2] end.
   apply IH; [intros x Hx; apply Hi; right; exact Hx|].
-  match type of Hp with process ?f t p g ?o = _ => pose proof (process_em t roots f p g o) as M end. rewrite Hp in M.
   apply M; [left; apply Hi; left; reflexivity|exact H].
 Qed.
-Lemma main_loop_J t : forall srcs first g out, J t g -> J t (snd (main_loop t srcs first g out)).
-Proof.
-  induction srcs as [|p r IH]; intros first g out H; cbn [main_loop]; [exact H|].
-  match goal with |- context [process ?f t p g ?o] => destruct (process f t p g o) as [out2 g2] eqn:Hp end.
-  apply IH. match type of Hp with process ?f t p g ?o = _ => pose proof (process_root_J t f p g o H) as M end.
-  rewrite Hp in M. exact M.
-Qed.
-
-Lemma In_rev_append_nil {A} (x : A) l : In x (rev_append l []) <-> In x l.
-Proof. rewrite rev_append_rev, app_nil_r. symmetry. apply in_rev. Qed.
-
 Theorem emitted_are_sources_or_included t p :
   In p (emitted_files t) -> In p (sources t) \/ In p (included_files t).
 Proof.
   unfold emitted_files, included_files, expand. rewrite !In_rev_append_nil.
   apply (main_loop_em t (sources t) (sources t) true init_state []); [apply incl_refl|intros x []].
 Qed.
-Theorem included_file_is_emitted t q :
-  starved (snd (expand t)) = false ->
-  In q (included_files t) -> is_file t q = true -> In q (emitted_files t).
+
+(* ------------------------------------------------------------------------------------------------
+   3. unless the fuel ran out, every included path that is a file has been scanned *)
+Definition J (t : tree) (g : gst) : Prop :=
+  starved g = false -> forall q, In q (included g) -> is_file t q = true -> In q (emitted g).
+Lemma process_J t : forall fuel q g out,
+  (* J for everything but q, which has just been put into the include set *)
+  (starved g = false -> forall x, In x (included g) -> x <> q -> is_file t x = true -> In x (emitted g)) ->
+  J t (snd (process fuel t q g out)).
 Proof.
-  unfold emitted_files, included_files, expand. rewrite !In_rev_append_nil. intros Hs.
-  apply (main_loop_J t (sources t) true init_state []); [intros _ x []|exact Hs].
+  induction fuel as [|f IH]; intros q g out H; cbn [process].
+  - intros Hst. cbn in Hst. discriminate.
+  - destruct (lookup t q) as [content|] eqn:Hl.
+    + apply (scan_inv t (process f t) (J t)).
+      * intros g1 inc H1 _. exact H1.
+      * intros g1 inc q1 o H1 _ _. apply IH. intros Hst x Hx Hne Hf. cbn in *.
+        destruct Hx as [->|Hx]; [congruence|]. apply H1; assumption.
+      * intros Hst x Hx Hf. cbn in *. destruct (patheqb x q) eqn:E.
+        -- apply patheqb_eq in E. left. symmetry. exact E.
+        -- right. apply H; try assumption. intros ->. rewrite (proj2 (patheqb_eq q q) eq_refl) in E. discriminate.
+    + cbn [snd]. intros Hst x Hx Hf. apply H; try assumption. intros ->. unfold is_file in Hf. rewrite Hl in Hf. discriminate.
+Qed.
+Lemma process_root_J t : forall fuel p g out, J t g -> J t (snd (process fuel t p g out)).
+Proof.
+  intros [|f] p g out H; cbn [process]; [intros Hst; cbn in Hst; discriminate|].
+  destruct (lookup t p) as [content|]; [|exact H].
+  apply (scan_inv t (process f t) (J t)).
+  - intros g1 inc H1 _. exact H1.
+  - intros g1 inc q1 o H1 _ _. apply process_J. intros Hst x Hx Hne Hf. cbn in *.
+    destruct Hx as [->|Hx]; [congruence|]. apply H1; assumption.
+  - intros Hst x Hx Hf. cbn in *. right. apply H; assumption.
+Qed.
+Lemma main_loop_J t : forall srcs first g out, J t g -> J t (snd (main_loop t srcs first g out)).
+Proof.
+  induction srcs as [|p r IH]; intros first g out H; cbn [main_loop]; [exact H|].
+  match goal with |- context [process ?f t p g ?o] => pose proof (process_root_J t f p g o H) as M; destruct (process f t p g o) as [out2 g2] end.
+  apply IH. exact M.
 Qed.
 
 (* ------------------------------------------------------------------------------------------------
-   3. the expansion only pushes text on the output, and carries over every character outside
+   4. fuel: the nesting depth is bounded by the number of paths that exist in the tree, because every
+      nested expansion is entered with one more (distinct, existing) path in the include set *)
+Lemma pathprefixb_firstn p : forall q, pathprefixb p q = true -> exists k, (k < length q)%nat /\ p = firstn k q.
+Proof.
+  induction p as [|x p IH]; intros [|y q] H; cbn in H; try discriminate.
+  - exists O. split; [cbn; lia|reflexivity].
+  - apply andb_true_iff in H. destruct H as [Hx Hp]. apply seqb_eq in Hx. subst y.
+    destruct (IH q Hp) as (k & Hk & ->). exists (S k). split; [cbn; lia|reflexivity].
+Qed.
+Lemma lookup_In t p c : lookup t p = Some c -> In p (map fst t).
+Proof.
+  induction t as [|[q d] t IH]; cbn; [discriminate|].
+  destruct (patheqb p q) eqn:E; [intros _; left; symmetry; apply patheqb_eq; exact E|intros H; right; apply IH; exact H].
+Qed.
+Lemma exists_path_all t p : exists_path t p = true -> In p (all_paths t).
+Proof.
+  unfold exists_path, all_paths. intros H. apply orb_true_iff in H. apply in_or_app. destruct H as [H|H].
+  - left. unfold is_file in H. destruct (lookup t p) eqn:E; [|discriminate]. eapply lookup_In; exact E.
+  - right. unfold is_dir in H. apply existsb_exists in H. destruct H as ([q c] & Hin & Hp). cbn in Hp.
+    apply in_flat_map. exists (q, c). split; [exact Hin|]. cbn.
+    destruct (pathprefixb_firstn p q Hp) as (k & Hk & ->).
+    unfold proper_prefixes. apply in_map_iff. exists k. split; [reflexivity|]. apply in_seq. lia.
+Qed.
+Lemma resolve_exists t dir inc q : resolve t dir inc = Some q -> exists_path t q = true.
+Proof.
+  unfold resolve. intros H.
+  assert (S2 : forall r, match join dir true inc with
+                         | Some p2 => if exists_path t p2 then Some p2 else None | None => None end = Some r -> exists_path t r = true).
+  { intros r. destruct (join dir true inc) as [p2|]; [|discriminate]. destruct (exists_path t p2) eqn:E; [|discriminate].
+    intros X; inversion X; subst; exact E. }
+  destruct (join dir false inc) as [p1|]; [|apply S2; exact H].
+  destruct (exists_path t p1) eqn:E; [inversion H; subst; exact E|apply S2; exact H].
+Qed.
+Lemma length_all_paths t : length (all_paths t) = (length t + length (flat_map fst t))%nat.
+Proof.
+  unfold all_paths. rewrite app_length, map_length. f_equal.
+  induction t as [|[q c] t IH]; [reflexivity|]. cbn [flat_map fst]. rewrite !app_length, IH. f_equal.
+  unfold proper_prefixes. rewrite map_length, seq_length. reflexivity.
+Qed.
+
+(* Inv: the include set is duplicate-free and consists of existing paths (so it has at most
+   |all_paths| elements) *)
+Definition Inv (t : tree) (g : gst) : Prop := NoDup (included g) /\ incl (included g) (all_paths t).
+Lemma Inv_bound t g : Inv t g -> (length (included g) <= length (all_paths t))%nat.
+Proof. intros [Hn Hi]. apply NoDup_incl_length; assumption. Qed.
+(* NS g0: same starvation flag as g0, invariant kept, include set not smaller *)
+Definition NS (t : tree) (g0 g : gst) : Prop :=
+  Inv t g /\ starved g = starved g0 /\ (length (included g0) <= length (included g))%nat.
+Lemma process_ns t : forall fuel p g out,
+  Inv t g -> (length (all_paths t) < fuel + length (included g))%nat ->
+  NS t g (snd (process fuel t p g out)).
+Proof.
+  induction fuel as [|f IH]; intros p g out HI Hf.
+  - exfalso. pose proof (Inv_bound t g HI). lia.
+  - cbn [process]. destruct (lookup t p) as [content|]; [|cbn [snd]; split; [exact HI|split; [reflexivity|lia]]].
+    apply (scan_inv t (process f t) (NS t g)).
+    + intros g1 inc H1 _. exact H1.
+    + intros g1 inc q o (HI1 & Hs1 & Hl1) Hq Hm.
+      set (g2 := add_inc (with_met g1 (include_dir g1, inc, Some q)) q).
+      assert (HI2 : Inv t g2).
+      { destruct HI1 as [Hn Hi]. split; cbn.
+        - constructor; [apply mem_path_false; exact Hm|exact Hn].
+        - intros x [<-|Hx]; [apply exists_path_all; eapply resolve_exists; exact Hq|apply Hi; exact Hx]. }
+      assert (Hf2 : (length (all_paths t) < f + length (included g2))%nat) by (cbn; lia).
+      destruct (IH q g2 o HI2 Hf2) as (HI3 & Hs3 & Hl3).
+      split; [exact HI3|split; [rewrite Hs3; exact Hs1|cbn in Hl3; lia]].
+    + split; [exact HI|split; [reflexivity|cbn; lia]].
+Qed.
+Lemma main_loop_ns t : forall srcs first g out,
+  Inv t g -> Inv t (snd (main_loop t srcs first g out)) /\ starved (snd (main_loop t srcs first g out)) = starved g.
+Proof.
+  induction srcs as [|p r IH]; intros first g out HI; cbn [main_loop]; [split; [exact HI|reflexivity]|].
+  match goal with |- context [process ?f t p g ?o] =>
+    assert (Hf : (length (all_paths t) < f + length (included g))%nat) by (unfold fuel_for; rewrite length_all_paths; lia);
+    pose proof (process_ns t f p g o HI Hf) as (HI2 & Hs2 & _); destruct (process f t p g o) as [out2 g2] end.
+  cbn [snd] in *. destruct (IH false g2 (10 :: out2) HI2) as [A B]. split; [exact A|rewrite B; exact Hs2].
+Qed.
+Theorem never_starved t : starved (snd (expand t)) = false.
+Proof.
+  unfold expand. apply (main_loop_ns t (sources t) true init_state []).
+  split; cbn; [constructor|intros x []].
+Qed.
+Theorem included_file_is_emitted t q :
+  In q (included_files t) -> is_file t q = true -> In q (emitted_files t).
+Proof.
+  unfold emitted_files, included_files. rewrite !In_rev_append_nil.
+  apply (main_loop_J t (sources t) true init_state []); [intros _ x []|apply never_starved].
+Qed.
+
+(* ------------------------------------------------------------------------------------------------
+   5. no body twice, unless a root source gets into the include set *)
+Section Once.
+  Variable t : tree.
+  Variable roots : list path.
+  (* either some root source has been included, or the scanned files are pairwise distinct and each is
+     a root already started ([done]) or a member of the include set *)
+  Definition Dinv (done : list path) (g : gst) : Prop :=
+    (exists r, In r roots /\ In r (included g)) \/
+    (NoDup (emitted g) /\ forall p, In p (emitted g) -> In p done \/ In p (included g)).
+  Lemma Dinv_mono done g g' : Mono g g' -> emitted g' = emitted g -> Dinv done g -> Dinv done g'.
+  Proof.
+    intros [Hi _] He [(r & Hr & Hin)|[Hn Hs]]; [left; exists r; split; [exact Hr|apply Hi; exact Hin]|].
+    right. rewrite He. split; [exact Hn|]. intros p Hp. destruct (Hs p Hp) as [A|A]; [left; exact A|right; apply Hi; exact A].
+  Qed.
+  Lemma Dinv_left_mono done g g' : Mono g g' -> (exists r, In r roots /\ In r (included g)) -> Dinv done g'.
+  Proof. intros [Hi _] (r & Hr & Hin). left. exists r. split; [exact Hr|apply Hi; exact Hin]. Qed.
+
+  Lemma process_D done : incl done roots -> forall fuel q g out,
+    In q (included g) \/ In q done ->
+    Dinv done g -> (exists r, In r roots /\ In r (included g)) \/ ~ In q (emitted g) ->
+    Dinv done (snd (process fuel t q g out)).
+  Proof.
+    intros Hd. induction fuel as [|f IH]; intros q g out Hq H Hfresh; cbn [process].
+    - eapply Dinv_mono; [apply Mono_starve|reflexivity|exact H].
+    - destruct (lookup t q) as [content|]; [|exact H].
+      apply (scan_inv t (process f t) (Dinv done)).
+      + intros g1 inc0 H1 _. eapply Dinv_mono; [apply Mono_with_met|reflexivity|exact H1].
+      + intros g1 inc q1 o H1 _ Hm.
+        set (g2 := add_inc (with_met g1 (include_dir g1, inc, Some q1)) q1).
+        assert (M12 : Mono g1 g2) by (eapply Mono_trans; [apply Mono_with_met|apply Mono_add_inc; exact Hm]).
+        assert (H2 : Dinv done g2) by (eapply Dinv_mono; [exact M12|reflexivity|exact H1]).
+        apply IH; [left; left; reflexivity|exact H2|].
+        destruct H1 as [(r & Hrr & Hin)|[Hn Hs]]; [left; exists r; split; [exact Hrr|apply (proj1 M12); exact Hin]|].
+        destruct (mem_path_dec q1 roots) as [Hr|Hr]; [left; exists q1; split; [exact Hr|left; reflexivity]|].
+        right. cbn. intros Hem. destruct (Hs q1 Hem) as [A|A]; [apply Hr, Hd, A|apply (mem_path_false _ _ Hm), A].
+      + (* entering q *)
+        destruct Hfresh as [L|Hne]; [left; exact L|].
+        destruct H as [L|[Hn Hs]]; [left; exact L|].
+        right. cbn. split; [constructor; assumption|].
+        intros p [<-|Hp]; [destruct Hq as [A|A]; [right; exact A|left; exact A]|apply Hs; exact Hp].
+  Qed.
+
+  Lemma Dinv_done_cons done p g : Dinv done g -> Dinv (p :: done) g.
+  Proof.
+    intros [L|[Hn Hs]]; [left; exact L|right; split; [exact Hn|]].
+    intros x Hx. destruct (Hs x Hx) as [A|A]; [left; right; exact A|right; exact A].
+  Qed.
+  Lemma main_loop_D : forall srcs done first g out,
+    NoDup srcs -> incl srcs roots -> incl done roots -> (forall x, In x srcs -> ~ In x done) ->
+    Dinv done g -> exists done', Dinv done' (snd (main_loop t srcs first g out)).
+  Proof.
+    induction srcs as [|p r IH]; intros done first g out Hn Hi Hd Hfresh H; cbn [main_loop]; [exists done; exact H|].
+    inversion Hn as [|? ? Hp Hn']; subst.
+    assert (Hd' : incl (p :: done) roots) by (intros x [<-|Hx]; [apply Hi; left; reflexivity|apply Hd; exact Hx]).
+    assert (HP : Dinv (p :: done) (snd (process (fuel_for t) t p g (10 :: rev_append (header_of p) (if first then out else 10 :: out))))).
+    { apply process_D; [exact Hd'|right; left; reflexivity|apply Dinv_done_cons; exact H|].
+      destruct H as [L|[_ Hs]]; [left; exact L|].
+      destruct (mem_path_dec p (included g)) as [A|A]; [left; exists p; split; [apply Hi; left; reflexivity|exact A]|].
+      right. intros Hem. destruct (Hs p Hem) as [B|B]; [apply (Hfresh p); [left; reflexivity|exact B]|apply A, B]. }
+    destruct (process (fuel_for t) t p g (10 :: rev_append (header_of p) (if first then out else 10 :: out))) as [out2 g2].
+    apply (IH (p :: done) false g2 (10 :: out2) Hn'); [intros x Hx; apply Hi; right; exact Hx|exact Hd'| |exact HP].
+    intros x Hx [<-|Hin]; [apply Hp; exact Hx|apply (Hfresh x); [right; exact Hx|exact Hin]].
+  Qed.
+End Once.
+
+(* sources t has no duplicates when the tree has none *)
+Lemma In_insert_path x p l : In x (insert_path p l) <-> x = p \/ In x l.
+Proof.
+  induction l as [|q l IH]; cbn; [intuition|].
+  destruct (str_ltb (path_str p) (path_str q)); cbn; [intuition|]. rewrite IH. intuition.
+Qed.
+Lemma NoDup_insert_path p l : ~ In p l -> NoDup l -> NoDup (insert_path p l).
+Proof.
+  induction l as [|q l IH]; intros Hp Hn; cbn; [constructor; [intros []|constructor]|].
+  destruct (str_ltb (path_str p) (path_str q)); [constructor; assumption|].
+  inversion Hn; subst. constructor.
+  - rewrite In_insert_path. intros [->|A]; [apply Hp; left; reflexivity|contradiction].
+  - apply IH; [intros A; apply Hp; right; exact A|assumption].
+Qed.
+Lemma In_sort_paths x l : In x (sort_paths l) <-> In x l.
+Proof. induction l as [|p l IH]; cbn; [tauto|]. rewrite In_insert_path, IH. intuition. Qed.
+Lemma NoDup_sort_paths l : NoDup l -> NoDup (sort_paths l).
+Proof.
+  induction 1 as [|p l Hp Hn IH]; cbn; [constructor|].
+  apply NoDup_insert_path; [rewrite In_sort_paths; exact Hp|exact IH].
+Qed.
+Lemma root_header_not_cpp : is_cpp_source root_header = false.
+Proof. vm_compute. reflexivity. Qed.
+Lemma NoDup_sources t : NoDup (map fst t) -> NoDup (sources t).
+Proof.
+  intros H. unfold sources. constructor.
+  - rewrite In_sort_paths, filter_In. intros [_ A]. rewrite root_header_not_cpp in A. discriminate.
+  - apply NoDup_sort_paths, NoDup_filter, H.
+Qed.
+
+(* no body twice — in full, under the hypothesis that holds of the real tree and that the check
+   evaluates on every run: no root source is in the include set *)
+Theorem included_once t :
+  NoDup (map fst t) ->
+  (forall p, In p (sources t) -> ~ In p (included_files t)) ->
+  NoDup (emitted_files t).
+Proof.
+  intros Ht Hroot. unfold emitted_files. apply rev_append_NoDup.
+  destruct (main_loop_D t (sources t) (sources t) [] true init_state [] (NoDup_sources t Ht)) as (done' & [(r & Hr & Hin)|[Hn _]]).
+  - apply incl_refl.
+  - intros x [].
+  - intros x _ [].
+  - right. cbn. split; [constructor|intros p []].
+  - exfalso. apply (Hroot r Hr). unfold included_files. rewrite In_rev_append_nil. exact Hin.
+  - exact Hn.
+Qed.
+
+(* ------------------------------------------------------------------------------------------------
+   6. the dynamic trace: every directive the expansion stood on is logged with the directory it was
+      resolved against; whatever it resolved to is in the include set *)
+Definition MetOk (g : gst) : Prop :=
+  forall dir inc q, In (dir, inc, Some q) (met g) -> In q (included g).
+Lemma MetOk_mono g g' : Mono g g' -> met g' = met g -> MetOk g -> MetOk g'.
+Proof. intros [Hi _] He H dir inc q Hin. rewrite He in Hin. apply Hi. eapply H; exact Hin. Qed.
+Lemma process_met t : forall fuel p g out, MetOk g -> MetOk (snd (process fuel t p g out)).
+Proof.
+  induction fuel as [|f IH]; intros p g out H; cbn [process]; [exact H|].
+  destruct (lookup t p) as [content|]; [|exact H].
+  apply (scan_inv t (process f t) MetOk).
+  - intros g1 inc H1 Hres dir inc' q [E|Hin]; [|eapply H1; exact Hin]. cbn.
+    injection E as E1 E2 E3. rewrite E3 in Hres. apply mem_path_In. exact Hres.
+  - intros g1 inc q o H1 _ Hm. apply IH.
+    intros dir inc' q' [E|Hin]; cbn; [inversion E; subst; left; reflexivity|right; eapply H1; exact Hin].
+  - exact H.
+Qed.
+Lemma main_loop_met t : forall srcs first g out, MetOk g -> MetOk (snd (main_loop t srcs first g out)).
+Proof.
+  induction srcs as [|p r IH]; intros first g out H; cbn [main_loop]; [exact H|].
+  match goal with |- context [process ?f t p g ?o] => pose proof (process_met t f p g o H) as M; destruct (process f t p g o) as [out2 g2] end.
+  apply IH. exact M.
+Qed.
+(* completeness with respect to the trace the expansion itself produces: whatever a directive it stood on
+   resolved to is in the include set, and — when that is a file — its body has been emitted *)
+Theorem closure_complete_dynamic t dir inc q :
+  In (dir, inc, Some q) (directives_met t) ->
+  In q (included_files t) /\ (is_file t q = true -> In q (emitted_files t)).
+Proof.
+  unfold directives_met. rewrite In_rev_append_nil. intros H.
+  assert (A : In q (included_files t)).
+  { unfold included_files. rewrite In_rev_append_nil.
+    apply (main_loop_met t (sources t) true init_state [] (fun _ _ _ X => match X with end) dir inc q H). }
+  split; [exact A|apply included_file_is_emitted; exact A].
+Qed.
+
+(* ------------------------------------------------------------------------------------------------
+   7. the expansion only pushes text on the output, and carries over every character outside
       include directives, in order *)
 Inductive Subseq : str -> str -> Prop :=
 | sub_nil l : Subseq [] l
@@ -207,8 +433,6 @@ Inductive Subseq : str -> str -> Prop :=
 | sub_skip x a b : Subseq a b -> Subseq a (x :: b).
 Lemma Subseq_app_l p : forall a b, Subseq a b -> Subseq a (p ++ b).
 Proof. induction p as [|x p IH]; intros a b H; cbn; [exact H|apply sub_skip, IH, H]. Qed.
-Lemma Subseq_refl a : Subseq a a.
-Proof. induction a; constructor; assumption. Qed.
 
 Definition Pushes (res out : str) (X : str) : Prop := res = rev X ++ out.
 
@@ -226,14 +450,14 @@ Section ScanLemmas3.
       + destruct (match_include (c :: r)) as [[inc mlen]|].
         * destruct (resolve t (include_dir g) inc) as [q|].
           -- destruct (mem_path q (included g)); [apply IH|].
-             set (g1 := {| include_dir := include_dir g; included := q :: included g; emitted := emitted g; starved := starved g |}).
+             set (g1 := add_inc (with_met g (include_dir g, inc, Some q)) q).
              destruct (rec_push q g1 (rev_append (header_of q) out)) as [Y HY].
              destruct (rec_process q g1 (rev_append (header_of q) out)) as [out2 g2]. cbn [fst] in HY.
              destruct (IH (pred mlen) false g2 (rev_append (footer_of q) out2)) as (X & HX & HS).
              exists (header_of q ++ Y ++ footer_of q ++ X). split.
              ++ unfold Pushes in *. rewrite HX, HY, !rev_append_rev, !rev_app_distr, <- !app_assoc. reflexivity.
              ++ apply Subseq_app_l, Subseq_app_l, Subseq_app_l. exact HS.
-          -- destruct (IH (pred mlen) true g (c :: out)) as (X & HX & HS).
+          -- destruct (IH (pred mlen) true (with_met g (include_dir g, inc, None)) (c :: out)) as (X & HX & HS).
              exists (c :: X). split; [unfold Pushes in *; rewrite HX; cbn [rev]; rewrite <- app_assoc; reflexivity|apply sub_skip, HS].
         * destruct (IH O false g (c :: out)) as (X & HX & HS).
           exists (c :: X). split; [unfold Pushes in *; rewrite HX; cbn [rev]; rewrite <- app_assoc; reflexivity|apply sub_keep, HS].
@@ -274,9 +498,9 @@ Proof.
 Qed.
 
 (* ------------------------------------------------------------------------------------------------
-   the full "no body twice" is FALSE of the generator for arbitrary trees: the root sources are not
-   in the include set, so a source that includes the root header gets its body a second time *)
+   witnesses *)
 Definition A (l : list N) : str := l.
+(* a source that includes the root header: the body of qtlogger.h is emitted twice *)
 Definition tiny_tree : tree :=
   [ (root_dir ++ [A [113;116;108;111;103;103;101;114;46;104]], A [105;110;116;32;120;59;10]);            (* qtlogger.h: int x; *)
     (root_dir ++ [A [97;46;99;112;112]],
